@@ -324,7 +324,7 @@ func c03Property(t *rapid.T) {
 	s.r.RefuseResend = func(seq int, _ string) bool { return refuse[seq] }
 	// the requested range
 	var b, e int
-	switch rapid.SampledFrom([]string{"inside", "inside", "whole", "single", "inverted", "beyond", "to-infinity-0", "to-infinity-999999", "end-past-last"}).Draw(t, "range") {
+	switch rapid.SampledFrom([]string{"inside", "inside", "whole", "single", "inverted", "beyond", "to-infinity-0", "to-infinity-999999", "end-past-last", "end-huge"}).Draw(t, "range") {
 	case "inside":
 		b = rapid.IntRange(1, last).Draw(t, "b")
 		e = rapid.IntRange(b, last).Draw(t, "e")
@@ -345,6 +345,8 @@ func c03Property(t *rapid.T) {
 		b, e = rapid.IntRange(1, last).Draw(t, "b"), 999999
 	case "end-past-last":
 		b, e = rapid.IntRange(1, last).Draw(t, "b"), last+rapid.IntRange(1, 50).Draw(t, "past")
+	case "end-huge":
+		b, e = rapid.IntRange(1, last).Draw(t, "b"), rapid.SampledFrom([]int{999998, 1000000, 2147483647, 2147483648, 4294967296, 9223372036854775806, 9223372036854775807}).Draw(t, "huge")
 	}
 	rrSeq := s.r.T()
 	if rapid.IntRange(0, 5).Draw(t, "rr-too-high") == 0 {
